@@ -39,8 +39,13 @@ func ExploreHistories(w *Worker, cfg SeqConfig) {
 	var execs int64
 	type node struct{ hist []string }
 	shardDepth := 1
-	if w.N > 1 && len(cfg.Alphabet) < 3*w.N && cfg.Depth >= 2 {
-		shardDepth = 2
+	if w.N > 1 && cfg.Depth >= 2 {
+		// shard late: the levels above the sharding depth are cheap and repeated by every worker, the
+		// (state, operation) pairs of the sharding level are dealt round-robin, which balances the bulk of the work
+		shardDepth = cfg.Depth - 1
+		if shardDepth > 4 {
+			shardDepth = 4
+		}
 	}
 	quiet := false // executions every worker repeats below the sharding depth are counted by worker 0 only
 	run := func(hist []string) (SeqResult, bool) {
